@@ -413,7 +413,9 @@ let oracle_c14_case script trace =
                 fail (Printf.sprintf "restart-originals obj=%d" i);
               Hashtbl.replace cur i post) (List.rev !lines);
           ignore ok0;
-          open_mods := []
+          (* a path that is still listed after the reload stays under observation: a later restore must return the
+             configured value (the replay re-recorded it) *)
+          open_mods := List.filter (fun ((i, p), _) -> match Hashtbl.find_opt cur i with Some o -> ps_orig_mentions p o | None -> false) !open_mods
         end
       end
     | Some ("ps_cr", a) ->
